@@ -13,9 +13,16 @@ carries its options under the key "p6g", so violations replay through the normal
   stale      a report file that already exists at the `--junit-xml` path (a passing report of an earlier run) must be replaced
   repath     the SAME paths used again in the same process with NEW content (scenario A, then scenario B written over it):
              the report of the second run must be the report of B (nothing keyed on path names may survive)
+  fmtnames   MESH files (.vtu) inside directory trees (cli_scen's trees hold tables only) and in file mode, whose VTK array names
+             are special to a formatting layer: `{`, `}`, `{0}`, `{}`, `%s`, `%(x)s`, `100%`, backslashes (CSV headers are
+             normalised by the reader, so .vtu); the failing / missing / erroring fields carry such names, so any text
+             assembled from field names with `.format()` / `%` meets them.  Needs `mesh_dirs()` (the shared ground-truth
+             function `cli_scen.dir_categories` knows tables only) and `fmt_names()` (name pools of the mesh generator)
 """
 from __future__ import annotations
+import contextlib
 import copy
+import fnmatch
 import os
 import shutil
 
@@ -257,4 +264,116 @@ def gen_batch_files(rng, n):
                     pre, _ = cs.gen_scenario(rng)
                 sc["p6g"]["prelude"] = pre
             out.append((sc, list(t) + ["p6g", "p6g-" + tag]))
+    return out
+
+
+# ---------------------------------------------------------------- mesh files in trees, names special to formatting layers
+
+FMT_PNAMES = ["u{0}", "{p}", "%s", "100%", "a\\b", "{", "}", "{}", "%(x)s", "T{0!r}", "{0}{1}", "x%dy", "c&d<{e}>", "Δ{0}"]
+FMT_CNAMES = ["k{0}", "{c}", "%d", "50%%", "c\\d", "{}", "}{", "é%s"]
+
+
+@contextlib.contextmanager
+def fmt_names():
+    """the mesh scenario generators of cli_scen draw field names from these pools only"""
+    oldp, oldc = list(cs.MESH_PNAMES), list(cs.MESH_CNAMES)
+    cs.MESH_PNAMES[:] = FMT_PNAMES
+    cs.MESH_CNAMES[:] = FMT_CNAMES
+    try:
+        yield
+    finally:
+        cs.MESH_PNAMES[:] = oldp
+        cs.MESH_CNAMES[:] = oldc
+
+
+def dir_categories_with_meshes(d):
+    """cli_scen.dir_categories with `.vtu` among the supported formats (superset: identical on trees of tables)"""
+    def consider(rel):
+        inc = True if d["incl_files"] is None else any(fnmatch.fnmatch(rel, p) for p in d["incl_files"])
+        exc = False if d["excl_files"] is None else any(fnmatch.fnmatch(rel, p) for p in d["excl_files"])
+        return inc and not exc
+
+    def mapped(rel):
+        for r in d["opts"]["read_as"] or []:
+            pat = r[len(cs.DSV_READER) + 1:] if r.startswith(cs.DSV_READER) else r[4:]
+            if fnmatch.fnmatch(rel, pat or "*"):
+                return True
+        return False
+    cat = {"compared": [], "missing_src": [], "missing_ref": [], "unsupported": [], "discarded": []}
+    for f in d["files"]:
+        rel = f["rel"]
+        if f["where"] == "both":
+            if not consider(rel):
+                cat["discarded"].append(rel)
+            elif rel.endswith(".csv") or rel.endswith(".vtu") or mapped(rel):
+                cat["compared"].append(f)
+            else:
+                cat["unsupported"].append(rel)
+        elif consider(rel):
+            cat["missing_src" if f["where"] == "ref" else "missing_ref"].append(rel)
+    return cat
+
+
+@contextlib.contextmanager
+def mesh_dirs():
+    old = cs.dir_categories
+    cs.dir_categories = dir_categories_with_meshes
+    try:
+        yield
+    finally:
+        cs.dir_categories = old
+
+
+def gen_mesh_dir(rng, nfiles):
+    """a tree of .vtu pairs under ONE set of options; call under fmt_names().  The first pair is built exactly like
+    cli_scen.gen_mesh_scenario (options, tolerance plan, field and domain edits); the further pairs are meshes of the same
+    length scale with field edits made under the same options (no domain edits: the tolerance plan belongs to one mesh)"""
+    lm0, mt = cs.gen_logical_mesh(rng)
+    names = list(dict.fromkeys(FMT_PNAMES + FMT_CNAMES))
+    sc0 = {"kind": "mesh", "rtol": None, "atol": None, "flags": cs.gen_flags(rng, mesh=True),
+           "incl": cs.gen_patterns(rng, cs._mesh_names(lm0)),
+           "excl": cs.gen_patterns(rng, cs._mesh_names(lm0)) if rng.random() < 0.5 else None,
+           "read_as": None, "damage": [None, None]}
+    sc0["rtol"] = cs.gen_tokens(rng, rng.sample(names, 4) + cs._mesh_names(lm0), "rtol", mesh=True)
+    sc0["atol"] = cs.gen_tokens(rng, rng.sample(names, 4) + cs._mesh_names(lm0), "atol", mesh=True, scale=mt["scale"] * 1e-2)
+    t0 = []
+    plan = cs.plan_domain_tolerance(rng, sc0, mt["scale"], t0)
+    sc0["res"], sc0["ref"] = cs.gen_mesh_pair(rng, sc0, lm0, t0, plan=plan)
+    keys = ("rtol", "atol", "flags", "incl", "excl", "read_as")
+    opts = {k: copy.deepcopy(sc0[k]) for k in keys}
+    d = {"opts": opts, "ims": rng.random() < 0.4, "imr": rng.random() < 0.4, "incl_files": None, "excl_files": None,
+         "files": [], "p6g": {"meshes": True}}
+    tags = ["dir", "p6g", "p6g-fmtnames", "p6g-mesh-dir"]
+    subs = ["", "", "sub/", "sub/deep/"]
+    for k in range(nfiles):
+        if k == 0:
+            sc, t = sc0, t0
+        else:
+            for _try in range(40):
+                lm, mtk = cs.gen_logical_mesh(rng)
+                if mtk["scale"] == mt["scale"]:
+                    break
+            else:
+                continue
+            sc = dict(copy.deepcopy(opts), kind="mesh", damage=[None, None])
+            t = []
+            sc["res"], sc["ref"] = cs.gen_mesh_pair(rng, sc, lm, t, domain_edits=False)
+            if rng.random() < 0.1:
+                sc["damage"][rng.randrange(2)] = rng.choice(["truncated", "garbage"])
+                t.append("damage-" + [x for x in sc["damage"] if x][0])
+        rel = rng.choice(subs) + f"m{k}.vtu"
+        d["files"].append({"rel": rel, "where": "both", "sc": sc})
+        tags += ["file-both.vtu"] + ["file-" + x for x in t if x.startswith(("edit", "damage"))]
+    if rng.random() < 0.5:
+        d["files"].append({"rel": "only.csv", "where": rng.choice(["res", "ref"]), "sc": None})
+        tags.append("file-onesided")
+    return d, tags
+
+
+def gen_fmt_file_scenarios(rng, n):
+    out = []
+    for _ in range(n):
+        sc, t = cs.gen_mesh_scenario(rng)
+        sc["p6g"] = {}
+        out.append((sc, list(t) + ["p6g", "p6g-fmtnames"]))
     return out
